@@ -18,8 +18,11 @@ import (
 )
 
 func init() {
-	reg.Register("c13.sweep", "C13", sweep)
-	reg.Register("c13.built", "C13", built)
+	reg.Register("c13.sweep", "C13", func(x *mon.Ctx) { sweep(x, false) })
+	reg.Register("c13.built", "C13", func(x *mon.Ctx) { built(x, false) })
+	// the tier-dependent subset, for the dispatch configurations that select other SM4 mode implementations
+	reg.Register("c13.sweep.tiers", "C13", func(x *mon.Ctx) { sweep(x, true) })
+	reg.Register("c13.built.tiers", "C13", func(x *mon.Ctx) { built(x, true) })
 	reg.Register("c13.modes", "C13", modes)
 }
 
@@ -111,12 +114,21 @@ func (r *runner) run(c *mon.Case, e *entry, ms []mutant) {
 	cf.report(c, r.st)
 }
 
-func sweep(x *mon.Ctx) {
+func sweep(x *mon.Ctx, tiersOnly bool) {
 	w, err := buildWorld(x.Seed)
 	if err != nil {
 		x.HarnessError("seed artefacts: %v", err)
 	}
 	es := catalogue(w)
+	if tiersOnly {
+		var keep []*entry
+		for _, e := range es {
+			if e.tier {
+				keep = append(keep, e)
+			}
+		}
+		es = keep
+	}
 	if only := os.Getenv("C13_ONLY_ENTRY"); only != "" {
 		// development aid for monitor self-tests: restrict the catalogue to entry points whose name contains the
 		// value. Never set by the plan; a restricted run stays below the plan's floor and is reported as a harness error.
@@ -131,7 +143,7 @@ func sweep(x *mon.Ctx) {
 	r := &runner{x: x, gs: newGuards(), st: newSites()}
 	setEditBreadth(x.Thorough())
 	allSubstitutions = x.Thorough()
-	x.Note("c13.sweep: %d entry points, %d artefacts, %d bytes of seeds (sha256 %s), %d DER edits per node", len(es), len(w.list), totalLen(w), worldDigest(w), editsPerNode)
+	x.Note(x.Workload+": %d entry points, %d artefacts, %d bytes of seeds (sha256 %s), %d DER edits per node", len(es), len(w.list), totalLen(w), worldDigest(w), editsPerNode)
 
 	spliceCases := x.Scale(1, 12)
 	spliceN := x.Scale(96, 256)
@@ -176,7 +188,7 @@ func sweep(x *mon.Ctx) {
 		}
 		for _, sn := range e.seeds {
 			a := w.get(sn)
-			for kind := kTrunc; kind <= kDER; kind++ {
+			for kind := kTrunc; kind <= kRelen; kind++ {
 				n := positions(kind, a, w)
 				step := e.chunk
 				if kind == kDER {
